@@ -69,6 +69,11 @@ func (g *Gen) constZeros() {
 
 func genC08(g *Gen) {
 	g.constZeros()
+	for rep := 0; rep < g.pick(40, 400); rep++ {
+		g.begin("sibling column additions")
+		g.siblingAdds(g.do(g.stdNew([]int{0, 1, 3, 6}[g.rng.Intn(4)], g.oneOf([]string{"AB", "ABF", "SAT", "EXAF"}), 8)))
+		g.end()
+	}
 	// 1. every assignment of lengths {0,1,2} to 1..3 columns, default (alphabetical) order and every
 	//    explicit order; the "first column empty" cases are the ones of D1.
 	lens := []int{0, 1, 2}
